@@ -16,6 +16,7 @@ import (
 	"strings"
 	"sync"
 	"testing"
+	"time"
 
 	"github.com/zeromicro/go-zero/core/logx"
 	"github.com/zeromicro/go-zero/core/stores/sqlc"
@@ -34,6 +35,42 @@ type script struct {
 	failCommit   bool
 	failRollback bool
 	stmts        int
+	// error values the driver injects (default: the errXxx sentinels)
+	stmtErr, commitErr, rollbackErr error
+}
+
+type wrappedErr struct{ inner error }
+
+func (w *wrappedErr) Error() string { return "verif wrapped: " + w.inner.Error() }
+func (w *wrappedErr) Unwrap() error { return w.inner }
+
+// errFlavours are the identities a failing statement / body / commit / rollback may carry.
+// The property quantifies over fault points, not over error values, so every flavour must be
+// treated alike: exactly one Begin, one body run, one terminal event, the error surfaced.
+var errFlavours = []string{"custom", "ErrNoRows", "ErrTxDone", "ErrConnDone", "ErrBadConn", "Canceled", "DeadlineExceeded", "EOF", "wrapped", "wrapped-ErrBadConn"}
+
+func errValue(flavour string, dflt error) error {
+	switch flavour {
+	case "ErrNoRows":
+		return sql.ErrNoRows
+	case "ErrTxDone":
+		return sql.ErrTxDone
+	case "ErrConnDone":
+		return sql.ErrConnDone
+	case "ErrBadConn":
+		return driver.ErrBadConn
+	case "Canceled":
+		return context.Canceled
+	case "DeadlineExceeded":
+		return context.DeadlineExceeded
+	case "EOF":
+		return io.EOF
+	case "wrapped":
+		return &wrappedErr{dflt}
+	case "wrapped-ErrBadConn":
+		return &wrappedErr{driver.ErrBadConn}
+	}
+	return dflt
 }
 
 var (
@@ -93,6 +130,9 @@ func (c *conn) stmt(kind string) error {
 	}
 	c.s.mu.Unlock()
 	if fail {
+		if c.s.stmtErr != nil {
+			return c.s.stmtErr
+		}
 		return errStmt
 	}
 	return nil
@@ -130,6 +170,9 @@ type tx struct{ s *script }
 func (t *tx) Commit() error {
 	if t.s.failCommit {
 		t.s.add("commit-fail")
+		if t.s.commitErr != nil {
+			return t.s.commitErr
+		}
 		return errCommit
 	}
 	t.s.add("commit")
@@ -139,6 +182,9 @@ func (t *tx) Commit() error {
 func (t *tx) Rollback() error {
 	if t.s.failRollback {
 		t.s.add("rollback-fail")
+		if t.s.rollbackErr != nil {
+			return t.s.rollbackErr
+		}
 		return errRollback
 	}
 	t.s.add("rollback")
@@ -150,9 +196,10 @@ func init() { sql.Register("verifc14", drv{}) }
 // ---------------------------------------------------------------- cases
 
 type fault struct {
-	Kind string // none begin stmt-returned stmt-ignored body-error body-acceptable-error panic commit rollback-after-error rollback-after-panic ctx-done
+	Kind string // none begin stmt-returned stmt-ignored body-error body-acceptable-error panic commit rollback-after-error rollback-after-panic ctx-done ctx-cancel-stmt ctx-cancel-direct ctx-cancel-ignored ctx-deadline-stmt
 	At   int    // statement index / number of statements executed before the body fails
 	Pan  string // panic value flavour
+	Err  string // error identity flavour ("" = the harness's own sentinel)
 }
 
 type tcase struct {
@@ -165,6 +212,14 @@ type tcase struct {
 
 type customPanic struct{ X int }
 
+type stringerPanic struct{}
+
+func (stringerPanic) String() string { return "verif stringer panic" }
+
+type errPanic struct{ code int }
+
+func (e *errPanic) Error() string { return fmt.Sprintf("verif error-typed panic %d", e.code) }
+
 func panicValue(flavour string) any {
 	switch flavour {
 	case "string":
@@ -173,6 +228,20 @@ func panicValue(flavour string) any {
 		return errors.New("verif panic error")
 	case "struct":
 		return customPanic{7}
+	case "int":
+		return 42
+	case "slice":
+		return []int{1, 2}
+	case "stringer":
+		return stringerPanic{}
+	case "errptr":
+		return &errPanic{3}
+	case "runtime":
+		var m map[string]int
+		defer func() { _ = m }()
+		var arr []int
+		_ = arr[len(m)+3] // runtime.Error (index out of range)
+		return nil
 	default:
 		return nil // panic(nil) -> *runtime.PanicNilError under go >= 1.21
 	}
@@ -189,11 +258,21 @@ func runCase(c *kit.Case, tc tcase) {
 		s.failBegin = true
 	case "stmt-returned", "stmt-ignored":
 		s.failStmt = tc.F.At
+		s.stmtErr = errValue(tc.F.Err, errStmt)
 	case "commit":
 		s.failCommit = true
+		s.commitErr = errValue(tc.F.Err, errCommit)
 	case "rollback-after-error", "rollback-after-panic":
 		s.failRollback = true
+		s.rollbackErr = errValue(tc.F.Err, errRollback)
 	}
+	bodyErr := errBody
+	if tc.F.Kind == "body-error" {
+		bodyErr = errValue(tc.F.Err, errBody)
+	}
+	// contexts that end WHILE the body runs (after At statements)
+	var cancelMid context.CancelFunc
+	ctxMid := strings.HasPrefix(tc.F.Kind, "ctx-cancel-") || tc.F.Kind == "ctx-deadline-stmt"
 	scriptsMu.Lock()
 	scripts[name] = s
 	scriptsMu.Unlock()
@@ -218,12 +297,36 @@ func runCase(c *kit.Case, tc tcase) {
 		bodyRuns++
 		leaked = sess
 		defer func() { bodyRet = err }()
-		for i := 0; i < tc.K; i++ {
+		for i := 0; i <= tc.K; i++ {
+			if ctxMid && tc.F.At == i {
+				// the caller's context ends now, in the middle of the body
+				if tc.F.Kind == "ctx-deadline-stmt" {
+					<-ctx.Done() // synchronisation only: the 60 ms deadline set below
+				} else {
+					cancelMid()
+				}
+				switch tc.F.Kind {
+				case "ctx-cancel-direct":
+					return ctx.Err()
+				case "ctx-cancel-stmt", "ctx-deadline-stmt":
+					// a statement issued with the ended context fails inside database/sql
+					_, e := sess.ExecCtx(ctx, "update t set v = 1")
+					if e == nil {
+						e = errors.New("verif: statement on a done context unexpectedly succeeded")
+					}
+					return e
+				}
+				// ctx-cancel-ignored: carry on with a live context, return nil at the end
+				ctx = context.Background()
+			}
+			if i == tc.K {
+				break
+			}
 			if (tc.F.Kind == "body-error" || tc.F.Kind == "body-acceptable-error" || tc.F.Kind == "rollback-after-error") && tc.F.At == i {
 				if tc.F.Kind == "body-acceptable-error" {
 					return sql.ErrNoRows
 				}
-				return errBody
+				return bodyErr
 			}
 			if (tc.F.Kind == "panic" || tc.F.Kind == "rollback-after-panic") && tc.F.At == i {
 				bodyPanicked = true
@@ -243,7 +346,7 @@ func runCase(c *kit.Case, tc tcase) {
 		}
 		switch {
 		case (tc.F.Kind == "body-error" || tc.F.Kind == "rollback-after-error") && tc.F.At == tc.K:
-			return errBody
+			return bodyErr
 		case tc.F.Kind == "body-acceptable-error" && tc.F.At == tc.K:
 			return sql.ErrNoRows
 		case (tc.F.Kind == "panic" || tc.F.Kind == "rollback-after-panic") && tc.F.At == tc.K:
@@ -258,6 +361,14 @@ func runCase(c *kit.Case, tc tcase) {
 		cctx, cancel := context.WithCancel(ctx)
 		cancel()
 		ctx = cctx
+	}
+	if ctxMid {
+		if tc.F.Kind == "ctx-deadline-stmt" {
+			ctx, cancelMid = context.WithTimeout(ctx, 60*time.Millisecond)
+		} else {
+			ctx, cancelMid = context.WithCancel(ctx)
+		}
+		defer cancelMid()
 	}
 	var ret error
 	var escaped any
@@ -308,7 +419,9 @@ func runCase(c *kit.Case, tc tcase) {
 	}
 
 	// the call itself was refused before anything ran (done context): nothing may have happened
-	if tc.F.Kind == "ctx-done" && bodyRuns == 0 {
+	if (tc.F.Kind == "ctx-done" || tc.F.Kind == "ctx-deadline-stmt") && bodyRuns == 0 {
+		// (ctx-deadline-stmt: on a heavily loaded machine the deadline can pass before the call
+		// started; then it is just another refused call)
 		if ret == nil {
 			c.Viol(key("nil-without-commit"), "returned nil although nothing was committed", w)
 		}
@@ -381,16 +494,16 @@ func runCase(c *kit.Case, tc tcase) {
 	// surfaced errors
 	switch tc.F.Kind {
 	case "commit":
-		if bodyOK && (ret == nil || !strings.Contains(ret.Error(), errCommit.Error())) {
+		if ce := errValue(tc.F.Err, errCommit); bodyOK && (ret == nil || !(errors.Is(ret, ce) || strings.Contains(ret.Error(), ce.Error()))) {
 			c.Viol(key("error-not-surfaced"), "commit failure not surfaced", w)
 		}
 		c.Obs("commit_failures", 1)
 	case "rollback-after-error", "rollback-after-panic":
-		if ret == nil || !strings.Contains(ret.Error(), errRollback.Error()) {
+		if re := errValue(tc.F.Err, errRollback); ret == nil || !(errors.Is(ret, re) || strings.Contains(ret.Error(), re.Error())) {
 			c.Viol(key("error-not-surfaced"), "rollback failure not surfaced", w)
 		}
 		c.Obs("rollback_failures", 1)
-	case "body-error", "body-acceptable-error", "stmt-returned":
+	case "body-error", "body-acceptable-error", "stmt-returned", "ctx-cancel-stmt", "ctx-cancel-direct", "ctx-deadline-stmt":
 		if bodyRet != nil && (ret == nil || !(errors.Is(ret, bodyRet) || strings.Contains(ret.Error(), bodyRet.Error()))) {
 			c.Viol(key("error-not-surfaced"), "the body's error was not returned", w)
 		}
@@ -399,6 +512,12 @@ func runCase(c *kit.Case, tc tcase) {
 			c.Viol(key("panic-swallowed"), "body panicked but nil was returned", w)
 		}
 		c.Obs("panics", 1)
+	}
+	if ctxMid {
+		c.Obs("ctx_ended_mid_body", 1)
+	}
+	if tc.F.Err != "" {
+		c.Obs("error_identity_"+tc.F.Err, 1)
 	}
 	if commits == 1 {
 		c.Obs("commits", 1)
@@ -428,7 +547,8 @@ func enumerate(maxK int) []tcase {
 					shapes = append(shapes, alt)
 				}
 			}
-			for _, sh := range shapes {
+			for shi, sh := range shapes {
+				sh0 := shi == 0
 				add := func(f fault, leak bool) { out = append(out, tcase{Entry: en, K: k, Query: sh, F: f, Leak: leak}) }
 				add(fault{Kind: "none"}, false)
 				add(fault{Kind: "none"}, true)
@@ -440,12 +560,33 @@ func enumerate(maxK int) []tcase {
 					add(fault{Kind: "stmt-returned", At: i}, false)
 					add(fault{Kind: "stmt-ignored", At: i}, false)
 				}
+				if sh0 {
+					// error identities (first statement shape only) and contexts ending mid-body
+					for _, fl := range errFlavours[1:] {
+						add(fault{Kind: "commit", Err: fl}, false)
+						for i := 0; i < k; i++ {
+							add(fault{Kind: "stmt-returned", At: i, Err: fl}, false)
+						}
+						for i := 0; i <= k; i++ {
+							add(fault{Kind: "body-error", At: i, Err: fl}, false)
+							if i == 0 || i == k {
+								add(fault{Kind: "rollback-after-error", At: i, Err: fl}, false)
+							}
+						}
+					}
+					for i := 0; i <= k; i++ {
+						add(fault{Kind: "ctx-cancel-stmt", At: i}, false)
+						add(fault{Kind: "ctx-cancel-direct", At: i}, false)
+						add(fault{Kind: "ctx-cancel-ignored", At: i}, false)
+					}
+					add(fault{Kind: "ctx-deadline-stmt", At: k}, false)
+				}
 				for i := 0; i <= k; i++ {
 					add(fault{Kind: "body-error", At: i}, false)
 					add(fault{Kind: "body-error", At: i}, true)
 					add(fault{Kind: "body-acceptable-error", At: i}, false)
 					add(fault{Kind: "rollback-after-error", At: i}, false)
-					for _, p := range []string{"string", "error", "struct", "nil"} {
+					for _, p := range []string{"string", "error", "struct", "nil", "int", "slice", "stringer", "errptr", "runtime"} {
 						add(fault{Kind: "panic", At: i, Pan: p}, false)
 						add(fault{Kind: "rollback-after-panic", At: i, Pan: p}, false)
 					}
@@ -463,7 +604,7 @@ func TestVerifC14(t *testing.T) {
 	kit.Run(t, "C14", "enum", len(cases), func(c *kit.Case) {
 		tc := cases[c.Index]
 		runCase(c, tc)
-		c.Sig(tc.F.Kind != "none", tc.Entry, tc.K, fmt.Sprint(tc.Query), tc.F.Kind, tc.F.At, tc.F.Pan, tc.Leak)
+		c.Sig(tc.F.Kind != "none", tc.Entry, tc.K, fmt.Sprint(tc.Query), tc.F.Kind, tc.F.At, tc.F.Pan, tc.F.Err, tc.Leak)
 		c.Sample(tc.F.Kind, 1, tc)
 	})
 	kit.End()
